@@ -49,5 +49,5 @@ def run(outcome, harness_map):
                    "for all scripts and budgets on that path); thread layer: one evaluation = one Kani harness; non-trivial = refuted / SUCCESS with witnesses")
     cov["samples"] = [{"witnesses": cov.get("witnesses")}] + frag["samples"]
     return "model_checking", cov, ["the library summaries listed in the evidence (VecDeque, Option, Iterator, mpsc::Receiver::try_recv as a FIFO)",
-                                   "the scripted thread step stands for VmGreenThread::run_n_steps(1); what one real step does is covered by the arm harnesses",
+                                   "the scripted step stands for VmGreenThread::step() (VmGreenThread::run_n_steps itself is executed from its MIR, maybe_gc is a no-op); what one real step does is covered by the arm harnesses",
                                    "nightly MIR == stable semantics for these functions"]
